@@ -472,3 +472,23 @@ def sig_detail(ev, rj):
 
 def sig_suffix(ev):
     return ":timeout" if ev.get("r") == "timeout" else ""
+
+
+def replay(ctx, path, prop, obs_mask):
+    """re-run the scenario named in a replay file on the current tree and print the verdict"""
+    body = json.load(open(path))
+    rp = body.get("replay", {})
+    sf, label = rp.get("scenario_file"), (rp.get("scenario") or "").replace("SCEN ", "")
+    if not sf or not os.path.exists(sf):
+        print("replay file does not name an existing scenario file: %s" % sf)
+        return 3
+    text = open(sf).read()
+    parts = ["SCEN" + t for t in text.split("SCEN")[1:]]
+    mine = [p for p in parts if p.split("\n")[0].strip() == "SCEN " + label]
+    if not mine:
+        print("scenario %s not found in %s" % (label, sf))
+        return 3
+    res = run_grid(ctx, [("replay", mine)], obs_mask, prop)
+    rc = 1 if ctx.violations or ctx.known_hits else 0
+    print("replay of %s / %s: %s" % (sf, label, "rejected again" if rc else "accepted"))
+    return rc
